@@ -8,6 +8,19 @@ from core import quiet
 
 quiet()
 
+from fractions import Fraction
+
+SCALE = 2 ** 70
+
+
+def exact(x):
+    """a float (np.float32 confidence as Python float, or a float64 threshold) as an exact integer multiple of 2^-70:
+    the real code compares them as float64, which is exact comparison of these dyadic rationals"""
+    f = Fraction(float(x)) * SCALE
+    assert f.denominator == 1, x
+    return int(f)
+
+
 STAGES = ["v_input", "rb1", "v_rb", "search", "impute", "v_mcs1", "post", "rb2", "v_final", "revert", "conf"]
 
 
@@ -240,8 +253,8 @@ def oracle_for_row(batch, i):
         "merged": merged,
         "mergeRules": list(rules),
         "curate": curate,
-        "conf": int(round(c * 1000)) if c is not None else 0,
-        "threshold": int(round(batch["threshold"] * 1000)),
+        "conf": exact(c) if c is not None else 0,
+        "threshold": exact(batch["threshold"]),
     }
 
 
@@ -262,7 +275,7 @@ def canon_row(r):
         "hasMcs": r["hasMcs"],
         "mcsOk": r["mcsOk"],
         "rules": r["rules"],
-        "confidence": int(round(c * 1000)) if c is not None else None,
+        "confidence": exact(c) if c is not None else None,
     }
 
 
